@@ -4,6 +4,9 @@ import (
 	"context"
 	"errors"
 	"fmt"
+	"google.golang.org/grpc/metadata"
+	"google.golang.org/protobuf/proto"
+	"io"
 	"math/rand"
 	"os"
 	"sort"
@@ -156,6 +159,46 @@ func TestC18(t *testing.T) {
 		}
 		st.Count("interceptor_steps", 7)
 	}
+	// (ii-b) through the stream interceptor: per-message faults on received and sent messages
+	{
+		set := faults.NewSet(fmt.Sprintf("vs%d", Seed()))
+		inj := mgrpc.StreamFaultInjector(set)
+		info := &ggrpc.StreamServerInfo{FullMethod: "/google.pubsub.v1.Subscriber/StreamingPull", IsClientStream: true, IsServerStream: true}
+		set.Add(faults.Description{Operation: "StreamingPull:RecvMsg", Parameters: map[string]string{"subscription": "a"}, Count: 2,
+			OnFault: func(d faults.Description, p faults.Parameters) error { return firedErr{0} }})
+		set.Add(faults.Description{Operation: "StreamingPull:SendMsg", Parameters: map[string]string{}, Count: 1,
+			OnFault: func(d faults.Description, p faults.Parameters) error { return firedErr{1} }})
+		in := []string{"b", "a", "a", "a", "b"}
+		wantRecvFail := []bool{false, true, true, false, false}
+		var recvFail, sendFail []bool
+		fake := &fakeServerStream{ctx: context.Background()}
+		for _, s := range in {
+			fake.in = append(fake.in, &pubsubpb.StreamingPullRequest{Subscription: s})
+		}
+		err := inj(nil, fake, info, func(srv interface{}, ss ggrpc.ServerStream) error {
+			for range in {
+				var req pubsubpb.StreamingPullRequest
+				recvFail = append(recvFail, ss.RecvMsg(&req) != nil)
+			}
+			for i := 0; i < 3; i++ {
+				sendFail = append(sendFail, ss.SendMsg(&pubsubpb.StreamingPullResponse{}) != nil)
+			}
+			return nil
+		})
+		if err != nil {
+			violate("stream-interceptor", fmt.Sprintf("stream start failed although no fault matches the start: %v", err), true, "start")
+		}
+		if fmt.Sprint(recvFail) != fmt.Sprint(wantRecvFail) {
+			violate("stream-interceptor", fmt.Sprintf("StreamingPull messages for subscriptions %v with fault {StreamingPull:RecvMsg, subscription=a, count 2}: failed=%v, expected %v", in, recvFail, wantRecvFail), true, fmt.Sprint(in))
+		}
+		if fmt.Sprint(sendFail) != fmt.Sprint([]bool{true, false, false}) {
+			violate("stream-interceptor", fmt.Sprintf("three sends with fault {StreamingPull:SendMsg, count 1}: failed=%v, expected [true false false]", sendFail), true, "send")
+		}
+		if cur := set.Current(); len(cur["StreamingPull:RecvMsg"]) != 0 || len(cur["StreamingPull:SendMsg"]) != 0 {
+			violate("listing", fmt.Sprintf("exhausted stream faults still listed: %v", cur), true, "stream-listing")
+		}
+		st.Count("interceptor_steps", 8)
+	}
 	// (iii) racing callers on the real Set (search support for the proof, never the proof)
 	rounds := 300
 	if thorough {
@@ -221,4 +264,25 @@ func TestC18(t *testing.T) {
 	st.Set("traces_validated_against_impl", nSeq-disagreements)
 	st.Set("rule", "random sequential Add/Check/Current sequences on the real faults.Set compared op by op with the Lean model (which description fired / pass / listing); calls through UnaryFaultInjector with protobuf requests; racing goroutines asserting the exact count min(N, matching calls); distinct = distinct sequential op sequences")
 	st.Summary = fmt.Sprintf("sequences=%d disagreements=%d race_rounds=%d", nSeq, disagreements, st.Get("race_rounds"))
+}
+
+// fakeServerStream feeds scripted requests to a stream handler
+type fakeServerStream struct {
+	ctx context.Context
+	in  []*pubsubpb.StreamingPullRequest
+	pos int
+}
+
+func (f *fakeServerStream) SetHeader(metadata.MD) error  { return nil }
+func (f *fakeServerStream) SendHeader(metadata.MD) error { return nil }
+func (f *fakeServerStream) SetTrailer(metadata.MD)       {}
+func (f *fakeServerStream) Context() context.Context     { return f.ctx }
+func (f *fakeServerStream) SendMsg(m interface{}) error  { return nil }
+func (f *fakeServerStream) RecvMsg(m interface{}) error {
+	if f.pos >= len(f.in) {
+		return io.EOF
+	}
+	proto.Merge(m.(proto.Message), f.in[f.pos])
+	f.pos++
+	return nil
 }
